@@ -899,7 +899,7 @@ def check_skeleton(ctx: Ctx):
         exprs.append(sc[0])
         metas.append(("skeleton", geo, cfg, sc[1]))
     # whole parallax pipeline from the raw stack, sub-masks included
-    for _ in range(ctx.budget(6, 40)):
+    for pidx in range(ctx.budget(6, 40)):
         geo = gen_geometry(r, small=True)
         cfg = gen_config(r, "prlx")
         cfg["flip"] = False
@@ -908,6 +908,14 @@ def check_skeleton(ctx: Ctx):
             cfg["aberr"] = {"C10": 120.0}
         if geo["scan"][0] * geo["scan"][1] * cfg["u"] ** 2 * geo["nbf"] > 600:
             cfg["u"] = 1
+        if pidx % 2 == 1:
+            # round 7: the model's pipeline also at special rotation angles (multiples of pi/6 and pi/4, exact or displaced
+            # by 1e-15..1e-3, beyond one turn, negative) with non-zero aberrations
+            from .. import rot_C04
+            geo["rot"] = rot_C04.special_angle_for_model(r)
+            if not any(v for kk, v in cfg["aberr"].items() if not kk.startswith("phi") and kk != "astigmatism_angle"):
+                cfg["aberr"] = {"C10": round(r.choice([-1, 1]) * r.uniform(30, 120), 2)}
+            ctx.dist("model-run/pipeline/special-rotation-angle")
         mask, _, _ = realise(geo)
         sub = split_mask_weighted(r, geo, 2)[0] if r.random() < 0.7 else mask
         pc, fl = pipeline_case(ctx, geo, cfg, sub)
@@ -1163,7 +1171,12 @@ def run(ctx: Ctx):
         "result must equal a fresh object constructed with the effective values, and the analytic parallax clause is evaluated "
         "with the effective aberrations.  Source tie (harness/c04_tie.py): cross-test of the translated merge / rotation chain / "
         "name table / dispatch / BF context / passes against the real functions.  A case is distinct by its full parameter set, "
-        "non-trivial when it has more than 2 BF pixels / a proper sub-mask")
+        "non-trivial when it has more than 2 BF pixels / a proper sub-mask.  Round 7 (harness/rot_C04.py): ROTATION ANGLES at the special "
+        "values of cos/sin and around them -- (num/den) pi, den in {1,2,3,4,6} (0, +-pi/2, pi, 3pi/2, +-pi/4, multiples of pi/6), "
+        "|angle| up to 4 pi (negative, beyond one turn), three floating-point spellings, exact or displaced by +-1e-15..1e-3, "
+        "at construction or as override_rotation_angle, aberrations never all zero -- judged by the analytic parallax clause "
+        "against shifted images computed in numpy on a detector grid rotated by the harness itself; every exact angle paired "
+        "with a displaced neighbour (continuity); half of the model's pipeline runs use such angles")
     ctx.assumptions += [
         "torch.fft.fft2/ifft2 compute the DFT (the model's naive DFT with numpy twiddle tables is compared with them to 1e-4)",
         "the per-pixel kernel factors are INPUTS of the skeleton theorems; the C04_gamma_* / *_hermitian theorems are about "
@@ -1205,6 +1218,8 @@ def run(ctx: Ctx):
     ext_C04.run_ext(ctx)
     check_index_map(ctx)
     check_skeleton(ctx)
+    from .. import rot_C04
+    rot_C04.run_rotation(ctx)       # last: the random streams of the older families are unchanged
 
 
 def replay(ctx: Ctx, path):
@@ -1241,6 +1256,9 @@ def replay(ctx: Ctx, path):
         elif which == "layers":
             from .. import layers_C04
             return layers_C04.replay_layers(ctx, rp)
+        elif which == "rotation":
+            from .. import rot_C04
+            return rot_C04.replay_rotation(ctx, rp)
         else:
             from .. import ext_C04
             rc = ext_C04.replay_ext(ctx, rp)
